@@ -26,5 +26,5 @@ mcJobAges == {0}
 mcJobMaxes == {1}
 mcProjOfName == <<>>
 mcWeights == <<>>
-mcOps == {"Publish", "Pull", "Ack", "Nack", "StreamAN", "DLSweep", "Tick"}
+mcOps == {"Publish", "Pull", "Ack", "Nack", "StreamAN", "AckNack", "DLSweep", "Tick"}
 =============================================================================
